@@ -233,6 +233,7 @@ class World:
         self.nevents = 0
 
         loop = self.loop = SimLoop()
+        loop.tie_breaker = lambda n: t.draw(n, 'tie')
         self.mods['time'].now = loop.time
 
         # ground truth
@@ -337,9 +338,9 @@ class World:
                     task = loop.harness_task(self.client(i, db, start, rounds))
                     tasks.append(task)
                     if cancel_at is not None:
-                        loop.call_at(cancel_at * GRID, self.cancel_client, i)
+                        loop.call_at_external(cancel_at * GRID, self.cancel_client, i)
                 for kind, at, arg in ops:
-                    loop.call_at(at, self.operator, kind, arg)
+                    loop.call_at_external(at, self.operator, kind, arg)
                 max_steps = 2_000_000 if not self.big else 10_000_000
                 while True:
                     if not loop.step():
@@ -424,7 +425,7 @@ class World:
             elif c['pfail'] and t.chance(c['pfail'], 100, 'connect_fail'):
                 fail = 'transient'
         fut = loop.create_future()
-        loop.call_later(lat * GRID, self._resolve, fut)
+        loop.call_later_external(lat * GRID, self._resolve, fut)
         try:
             await fut
         finally:
@@ -515,7 +516,7 @@ class World:
             self.faults['slow_disconnect'] += 1
         dfail = bool(c['pdfail']) and loop.time() < self.t_heal and t.chance(c['pdfail'], 100, 'disconnect_fail')
         fut = loop.create_future()
-        loop.call_later(lat * GRID, self._resolve, fut)
+        loop.call_later_external(lat * GRID, self._resolve, fut)
         try:
             await fut
         finally:
@@ -533,7 +534,7 @@ class World:
         loop, pool, c = self.loop, self.pool, self.cfg
         self.sleeping += 1
         try:
-            await asyncio.sleep(start * GRID)
+            await loop.sleep_external(start * GRID)
         finally:
             self.sleeping -= 1
         for rno, (hold, disc, gap, samedb) in enumerate(rounds):
@@ -589,7 +590,7 @@ class World:
             gen = self.prune_all_gen
             self.sleeping += 1
             try:
-                await asyncio.sleep(hold * GRID)
+                await loop.sleep_external(hold * GRID)
             finally:
                 self.sleeping -= 1
             self.lent.pop(conn, None)
@@ -614,7 +615,7 @@ class World:
             if rno + 1 < len(rounds):
                 self.sleeping += 1
                 try:
-                    await asyncio.sleep(gap * GRID)
+                    await loop.sleep_external(gap * GRID)
                 finally:
                     self.sleeping -= 1
 
